@@ -10,7 +10,7 @@ import sys
 
 prop, k, line = sys.argv[1:4]
 note = sys.argv[4] if len(sys.argv) > 4 else ""
-src = f"/tmp/seed-out/{prop}"
+src = os.environ.get("SEED_SRC") or f"/tmp/seed-out/{prop}"
 dst = f"/verif/seeded/{prop}-{k}"
 os.makedirs(dst, exist_ok=True)
 shutil.copy(f"{src}/patch_{k}.diff", f"{dst}/patch.diff")
